@@ -430,9 +430,9 @@ func enumMMUCases(thorough bool, yield func(mmuCase) bool) {
 		n, maxPages, freeUpTo, minPages int
 		allConfigs                      bool
 	}
-	fams := []family{{1, 4, 2, 0, true}, {2, 4, 2, 0, true}, {3, 1, 1, 0, true}, {3, 4, 2, 2, false}}
+	fams := []family{{1, 4, 2, 0, true}, {2, 4, 2, 0, true}, {3, 1, 1, 0, true}, {3, 4, 0, 2, false}}
 	if thorough {
-		fams = []family{{1, 4, 4, 0, true}, {2, 4, 4, 0, true}, {3, 4, 2, 0, true}, {4, 1, 1, 0, true}, {4, 4, 2, 2, false}}
+		fams = []family{{1, 4, 4, 0, true}, {2, 4, 4, 0, true}, {3, 4, 2, 0, true}, {4, 1, 1, 0, true}, {4, 4, 0, 2, false}}
 	}
 	for _, f := range fams {
 		ok := mmuTables(f.maxPages, f.freeUpTo, func(pre []mmuPre) bool {
